@@ -103,8 +103,10 @@ package traversal
 // known_deviation_hits instead of failures; nothing is suppressed without the variable):
 //   "detach-below-detached": X2 inputs in which a Detach is applied to a segment one of whose strict
 //        ancestors was detached earlier (sequential part: recognised on the Detach sequence; BreadthFirst
-//        part: the trunk-detach(S) driver, the only one that can produce such an order).
-//   "skiplimit-concurrent": X1 concurrent trials (no deviation found; present so that a finding can be triaged).
+//        part: every run of the trunk-detach(S) driver, the only one that detaches - and descends - below a
+//        detached trunk; only its memory-limit and final-size checks are switched, lost/duplicated segments,
+//        hangs, panics and goroutine leaks stay failures).
+// X1 found no deviation on the unchanged tree and therefore has no class.
 
 import (
 	"context"
@@ -502,7 +504,7 @@ func (x *tvExt) hit(class, msg string) {
 func tvKnownFromEnv() map[string]bool {
 	out := map[string]bool{}
 	for _, p := range strings.Split(os.Getenv("VERIF_KNOWN"), "|") {
-		if p = strings.TrimSpace(p); p == "detach-below-detached" || p == "skiplimit-concurrent" {
+		if p = strings.TrimSpace(p); p == "detach-below-detached" {
 			out[p] = true
 		}
 	}
@@ -615,7 +617,7 @@ func tvConcurrentSkipLimit(x *tvExt, trials int, failNow func(class, msg string)
 						x.sub["concurrent_counter_trials"]++
 						if got := int(falses[i].Load()); got != want || !counters[i]() {
 							if bad++; bad <= 3 {
-								failNow("skiplimit-concurrent", fmt.Sprintf("atomics.NewCounter[uint%d](%d) called %d times by each of %d goroutines released together (trial %d): answered false %d times, want exactly %d, and true afterwards", width, limit, per, workers, done+i, got, want))
+								failNow("", fmt.Sprintf("atomics.NewCounter[uint%d](%d) called %d times by each of %d goroutines released together (trial %d): answered false %d times, want exactly %d, and true afterwards", width, limit, per, workers, done+i, got, want))
 							}
 						}
 					}
@@ -699,7 +701,7 @@ func tvConcurrentSkipLimit(x *tvExt, trials int, failNow func(class, msg string)
 							}
 							if wrong != "" || accepted != wantAccepted || skipped != wantSkipped || rejected != collectable-wantAccepted-wantSkipped {
 								if bad++; bad <= 3 {
-									failNow("skiplimit-concurrent", fmt.Sprintf("FilteredSkipLimit(skip=%d, limit=%d) shared by %d goroutines released together, %d calls each, %d collectable calls in all (trial %d): %d collected, %d skipped, %d rejected; want exactly %d collected, %d skipped, %d rejected%s", skip, limit, workers, per, collectable, done+i, accepted, skipped, rejected, wantAccepted, wantSkipped, collectable-wantAccepted-wantSkipped, wrong))
+									failNow("", fmt.Sprintf("FilteredSkipLimit(skip=%d, limit=%d) shared by %d goroutines released together, %d calls each, %d collectable calls in all (trial %d): %d collected, %d skipped, %d rejected; want exactly %d collected, %d skipped, %d rejected%s", skip, limit, workers, per, collectable, done+i, accepted, skipped, rejected, wantAccepted, wantSkipped, collectable-wantAccepted-wantSkipped, wrong))
 								}
 							}
 						}
